@@ -101,6 +101,7 @@ class ExitTracer:
         mon.register_callback(TOOL, mon.events.PY_START, self._on_start)
         mon.register_callback(TOOL, mon.events.PY_RETURN, self._on_return)
         mon.set_events(TOOL, mon.events.PY_START)
+        mon.restart_events()  # re-arm locations DISABLEd by an earlier tracer in this process
         self.installed = True
 
     def uninstall(self):
